@@ -54,6 +54,7 @@ class Grammar:
         self.read_suffixes()
         self.read_guards()
         self.read_printer_constants()
+        self.read_namer()
 
     def load(self, rel):
         p = os.path.join(self.repo, rel)
@@ -246,6 +247,83 @@ class Grammar:
         self.anon_suffix = an.right.value
 
     # ---------------------------------------------------------------
+    NAMER_BODY = """
+while True:
+    name = cpt_type + str(m)
+    if name not in names and name not in self.names:
+        self.names.append(name)
+        return name
+    m += 1
+"""
+    REMOVE_BODY = """
+if name is None:
+    return self
+if isinstance(name, (list, tuple, set)):
+    for name1 in name:
+        self.remove(name1)
+    return self
+if name not in self._elements:
+    raise ValueError('Unknown component: ' + name)
+self._invalidate()
+cpt = self._elements[name]
+for node in cpt.nodes:
+    node.remove(cpt)
+self._elements.pop(name, None)
+return self
+"""
+
+    @staticmethod
+    def _body(fn):
+        b = list(fn.body)
+        if b and isinstance(b[0], ast.Expr) and isinstance(b[0].value, ast.Constant) and isinstance(b[0].value.value, str):
+            b = b[1:]
+        return b
+
+    def _method(self, rel, tree, cls, name):
+        fn = [n for c in tree.body if isinstance(c, ast.ClassDef) and (cls is None or c.name == cls) for n in c.body
+              if isinstance(n, ast.FunctionDef) and n.name == name]
+        if len(fn) != 1:
+            raise Untranslatable('%s: expected exactly one method %s.%s' % (rel, cls or '*', name))
+        return fn[0]
+
+    def read_namer(self):
+        """the component namer, statement for statement (the Coq model LT.ParserModel.namer_loop / make_anon and
+        LT.ParserNamer.remove_elt mirror exactly this text); only the start index is read as a number.  A difference
+        does not stop the run (so that the search can still look for a failing history): it is recorded in
+        self.namer_issues and becomes a broken obligation."""
+        self.namer_issues = []
+        self.namer_start = 1
+        same = lambda stmts, text: [ast.dump(x) for x in stmts] == [ast.dump(x) for x in ast.parse(text).body]
+        try:
+            rel = 'lcapy/componentnamer.py'
+            src, tree = self.load(rel)
+            fn = self._method(rel, tree, 'ComponentNamer', 'name')
+            if [a.arg for a in fn.args.args] != ['self', 'cpt_type', 'names']:
+                raise Untranslatable('%s: ComponentNamer.name has unexpected parameters' % rel)
+            b = self._body(fn)
+            if not (b and isinstance(b[0], ast.Assign) and ast.unparse(b[0].targets) == 'm' and isinstance(b[0].value, ast.Constant)
+                    and type(b[0].value.value) is int and b[0].value.value >= 0):
+                raise Untranslatable('%s: ComponentNamer.name does not start with m = <int>' % rel)
+            self.namer_start = b[0].value.value
+            if not same(b[1:], self.NAMER_BODY):
+                raise Untranslatable('%s: the loop of ComponentNamer.name is not the modelled one' % rel)
+            init = self._method(rel, tree, 'ComponentNamer', '__init__')
+            if not same(self._body(init), 'self.names = []'):
+                raise Untranslatable('%s: ComponentNamer.__init__ is not `self.names = []`' % rel)
+            rel = 'lcapy/netfile.py'
+            src, tree = self.load(rel)
+            fn = self._method(rel, tree, None, '_make_anon_cpt_name')
+            if not same(self._body(fn), "return self.namer.name(cpt_type + 'anon', self.elements)"):
+                raise Untranslatable('%s: _make_anon_cpt_name is not the modelled call of the namer' % rel)
+            rel = 'lcapy/netlist.py'
+            src, tree = self.load(rel)
+            fn = self._method(rel, tree, 'Netlist', 'remove')
+            if [a.arg for a in fn.args.args] != ['self', 'name'] or not same(self._body(fn), self.REMOVE_BODY):
+                raise Untranslatable('%s: Netlist.remove is not the modelled one' % rel)
+        except Untranslatable as e:
+            self.namer_issues.append(str(e))
+
+    # ---------------------------------------------------------------
     def coq(self):
         out = ['(* GENERATED by tools/tr_grammar.py from the current working tree; do not edit.']
         for f, h in sorted(self.files.items()):
@@ -274,6 +352,8 @@ class Grammar:
         out.append('Definition item_sep_text : str := %s.' % coq_str(self.item_sep))
         out.append('Definition item_fmt_text : str := %s.' % coq_str(self.item_fmt))
         out.append('Definition anon_suffix_text : str := %s.' % coq_str(self.anon_suffix))
+        out.append('(* first index tried by ComponentNamer.name (`m = ...`) *)')
+        out.append('Definition namer_start : nat := %d.' % self.namer_start)
         return '\n'.join(out) + '\n'
 
 
